@@ -326,6 +326,17 @@ def prog_iteration(seed: int, n_ops: int = 8, *, eager=True, two_engines=True) -
         observed += [e, d]
         if rng.random() < 0.5:
             observed.append(g.chain(d, d))
+    if eager and rng.random() < 0.15:
+        # scenario: a materialization whose result is EMPTY although its bounds do not say so (a selection
+        # that rejects every row of a non-empty leaf); executed several times and chained with itself
+        base = g.leaf("e0", cols=sorted(rng.sample(BASE_COLS, rng.choice([1, 2]))), nrows=rng.choice([1, 2, 3]),
+                      bounds=rng.choice(["exact", "loose"]))
+        c0 = sorted(g.cols[base])[0]
+        none = g.apply(base, ["sel", ["pfn", "lt", "*", ["ref", c0], ["lit", -9]]], g.cols[base])
+        if rng.random() < 0.4:
+            none = g.apply(none, ["sort", ["term", ["ref", c0], "asc"]], g.cols[none])
+        m = g.mat(none)
+        observed += [m, m, g.chain(m, m), m]
     for _ in range(n_ops):
         k = rng.random()
         t = g.pick()
@@ -458,6 +469,37 @@ def prog_commute_random(seed: int, n: int = 30) -> G:
     return g
 
 
+def prog_commute_join(seed: int, n: int = 12) -> G:
+    """`PartialJoin.commute` probes (C04): a join with explicit common columns against every kind of
+    existing operation, including a calculation that CREATES a common column and a projection that
+    drops one."""
+    g = G(seed)
+    rng = g.rng
+    g.engine("e0", "iter")
+    tcols = sorted(set(rng.sample(["a", "b", "c", "d"], rng.choice([2, 3]))))
+    t = g.leaf("e0", cols=tcols, nrows=rng.randint(0, 4), bounds="exact")
+    for _ in range(n):
+        cur, ccols = g.rand_op(g.cols[t], allow=("calc", "calc", "proj", "sel", "sort", "dedup", "slice"))
+        if cur[0] == "calc" and rng.random() < 0.6:
+            # make the calculated column a key the fixed operand also has
+            key = rng.choice([k for k in ("y", "a", "b", "d") if k not in g.cols[t]] or ["y"])
+            if key not in g.cols[t]:
+                cur = ["calc", key, ["fn", "add", "*", ["ref", sorted(g.cols[t])[0]], ["lit", 1]]]
+                ccols = g.cols[t] | {key}
+        if not op_valid_on(cur, g.cols[t]):
+            continue
+        # operands share key columns only (shared non-key columns have no defined join semantics)
+        extra = set(rng.sample(["x", "z"], rng.choice([0, 1]))) - set(ccols) - set(g.cols[t])
+        shared = {c for c in ccols if KEY[c] and rng.random() < 0.7}
+        fcols = sorted(shared | extra | ({"y"} if rng.random() < 0.2 and "y" not in g.cols[t] else set()))
+        if not fcols:
+            continue
+        f = g.leaf("e0", cols=fcols, nrows=rng.randint(0, 3), bounds="exact")
+        common = sorted(c for c in (set(fcols) & set(ccols)) if KEY[c])
+        g.emit(["commutej", f, common, ["plit", "T"], cur, t])
+    return g
+
+
 def prog_commute_enum(chunk: int, nchunks: int) -> G:
     """Exhaustive ordered pairs from the operation universe on the fixed leaves (C04 thorough)."""
     g = G(0)
@@ -573,6 +615,22 @@ def prog_predicates(seed: int, n: int = 40) -> G:
             g.emit(["pred", g.pred(cols, rng.choice([1, 2, 3])), *binds])
         else:
             g.emit(["expr", g.expr(cols, rng.choice([1, 2, 3])), *binds])
+    return g
+
+
+def prog_pred_use(seed: int, n: int = 8) -> G:
+    """Predicate objects used in joins and inspected again afterwards (C13: declared required columns
+    must stay exactly sufficient; C09: evaluation is side-effect free)."""
+    g = G(seed, max_rows=3)
+    rng = g.rng
+    eng = rng.choice(["sql", "iter"])
+    g.engine("e0", eng)
+    l1 = g.leaf("e0", cols=sorted(set(rng.sample(["a", "b", "c"], 2)) | {"a"}))
+    l2 = g.leaf("e0", cols=sorted(set(rng.sample(["b", "d", "y"], 2)) | {"d"}))
+    both = sorted(g.cols[l1] | g.cols[l2])
+    for _ in range(n):
+        cols = sorted(rng.sample(both, rng.choice([1, 2, 3])))
+        g.emit(["predjoin", g.pred(cols, rng.choice([1, 2])), l1, l2])
     return g
 
 
@@ -1275,12 +1333,41 @@ def prog_values(seed: int, n_ops: int = 6) -> G:
     for e in ("e0", "e1"):
         g.leaf(e, cols=sorted(rng.sample(BASE_COLS, rng.choice([2, 3]))))
     twins: list[tuple[str, str]] = [(x, x) for x in list(g.cols)]
+    # a second SQL table to join with (disjoint leaves), built twice as well
+    side = g.leaf("e0", cols=sorted(set(rng.sample(BASE_COLS, 2)) | {"a"}))
+    side_tw = [(side, side)]
+    if rng.random() < 0.6 and len(g.cols[side]) > 1:
+        keep = sorted(g.cols[side])[: rng.choice([1, 2])]
+        side_tw.append((g.apply(side, ["proj", *keep], frozenset(keep)), g.apply(side, ["proj", *keep], frozenset(keep))))
     g.emit(["snap"])
+    if rng.random() < 0.35 and len(side_tw) > 1:
+        # scenario: (calculation over a SQL table) JOIN (projected SQL table), built twice, hashed
+        base = next(x for x in g.cols if g.eng[x] == "e0" and x != side)
+        if g.cols[base] and not (g.cols[side_tw[1][0]] & g.cols[base] & NONKEY) and \
+                not (g.leaves_of.get(base, frozenset()) & g.leaves_of.get(side, frozenset())):
+            tag = rng.choice([t for t in NEW_TAGS if t not in g.cols[base] and t not in g.cols[side]] or ["z"])
+            if tag not in g.cols[base]:
+                op = ["calc", tag, ["fn", "neg", "*", ["ref", sorted(g.cols[base])[0]]]]
+                ca = g.apply(base, op, g.cols[base] | {tag})
+                cb = g.apply(base, op, g.cols[base] | {tag})
+                ja = g.join(ca, side_tw[1][0], None)
+                jb = g.join(cb, side_tw[1][1], None)
+                twins.append((ja, jb))
+                g.emit(["hash", ja, jb])
+                g.emit(["snap"])
     for _ in range(n_ops):
         a, b = rng.choice(twins)
         k = rng.random()
         cols = g.cols[a]
-        if k < 0.7:
+        joinable = [(x, y) for x, y in side_tw
+                    if g.eng[x] == g.eng[a] and not (g.cols[x] & cols & NONKEY)
+                    and not (g.leaves_of.get(x, frozenset()) & g.leaves_of.get(a, frozenset()))]
+        if k < 0.12 and joinable:
+            # the same join built twice (a projected operand makes the SQL engine re-apply a projection)
+            x, y = rng.choice(joinable)
+            ra = g.join(a, x, None)
+            rb = g.join(b, y, None)
+        elif k < 0.7:
             op, nc = g.rand_op(cols, allow=("calc", "dedup", "proj", "sel", "sort", "sort", "slice"))
             if op[0] == "sel" and rng.random() < 0.4 and cols:
                 c = rng.choice(sorted(cols))
